@@ -104,19 +104,19 @@ class C22(Property):
             return ctx.violation("conversion-key-sets-changed", c, {"polar": sorted(q), "cartesian": sorted(cart)})
         a, b = chi_spec(q, alpha, phi), chi_spec(p, alpha, phi)
         scale = 1e-300 + sum(abs(p.get(s, 0.0)) * 0.03 ** (int(s[1]) + 1) for s in POLAR12 if not s.startswith("phi"))
-        if np.abs(a - b).max() > 1e-9 * scale:
+        if not (np.abs(a - b).max() <= 1e-9 * scale):
             return ctx.violation("roundtrip-changes-the-aberration-function", c,
                                  {"max_abs_diff": float(np.abs(a - b).max()), "scale": scale, "roundtrip": q})
         with precision("float64"):
             ka = np.asarray(tr.Aberrations(aberration_coefficients=q, energy=1e5)._evaluate_from_angular_grid(alpha, phi))
             kb = np.asarray(tr.Aberrations(aberration_coefficients=p, energy=1e5)._evaluate_from_angular_grid(alpha, phi))
-        if np.abs(ka - kb).max() > 1e-7:
+        if not (np.abs(ka - kb).max() <= 1e-7):
             return ctx.violation("roundtrip-changes-the-transfer-function", c, {"max_abs_diff": float(np.abs(ka - kb).max())})
         # the other direction on the real code: cartesian -> polar -> cartesian reproduces the Cartesian coefficients
         c2 = tr.polar2cartesian(tr.cartesian2polar(dict(cart)))
         for s in CART:
             sc = 1e-300 + max(abs(float(cart[k])) for k in CART if k[:3] == s[:3])
-            if abs(float(c2[s]) - float(cart[s])) > 1e-9 * sc:
+            if not (abs(float(c2[s]) - float(cart[s])) <= 1e-9 * sc):
                 return ctx.violation("cartesian-roundtrip-changes-a-coefficient", c, {"symbol": s, "before": float(cart[s]), "after": float(c2[s])})
         # a second round trip is a fixed point of the representation (magnitude signs normalised)
         q2 = {s: float(v) for s, v in tr.cartesian2polar(tr.polar2cartesian(dict(q))).items()}
